@@ -10,11 +10,17 @@
    back_scan, mps_error, raise_parsing_error): the faithful model falsified the claims;
    the refutations stay as theorems, their witnesses are replayed by checks/C09.py on
    every run and must no longer reproduce (regression inputs).
-   NOT proved (observed through ASan on the real code only): the forward scans of the
-   option-line walk, the coefficient readers, the composition over whole files. *)
+   Part C: whole files (ParseTotal/WholeFile.v, Gmp621.v): the stateful line buffer, the
+   option loop with atoi, the dispatch and the token loops of the monomial, legacy 2.x,
+   secular and Chebyshev readers, GMP's mpf_set_str / mpq_set_str as PARAMETERS.
+   NOT modelled (observed through ASan on the real code only): what GMP, the allocator and
+   the double/DPE conversions do with an accepted token, the history ring of the input
+   buffer, int overflow of n + 1 at Degree = INT_MAX, the yacc grammar of inline input. *)
 Require Import ZArith List String Bool Lia ZifyBool.
 Require Import MPSV.ParseTotal.Tokenizer MPSV.ParseTotal.OptionLine.
 Require Import MPSV.ParseTotal.TokenizerProps MPSV.ParseTotal.OptionLineProps.
+Require Import MPSV.ParseTotal.Gmp621 MPSV.ParseTotal.WholeFile.
+Require Import MPSV.ParseTotal.WholeFileProps MPSV.ParseTotal.WholeFileTotal.
 Import ListNotations.
 Open Scope Z_scope.
 
@@ -179,3 +185,123 @@ Theorem C09_before_fix_error_message_va_list_refuted :
      = MOk (str "Unrecognized option: floatingpointt").
 Proof. exact va_list_reuse_witness. Qed.
 Print Assumptions C09_before_fix_error_message_va_list_refuted.
+
+(* ========================= Part C: whole files ============================== *)
+
+(* mps_parse_string on ANY byte string, for ANY behaviour of mpf_set_str / mpq_set_str
+   (accept/reject and the numerator/denominator stored), with or without the Chebyshev
+   index check: the budgets |input|+2 (lines per call, iterations per loop) and
+   2|input|+1100 (steps per line scan) are never exhausted, every access to the line
+   buffer is inside the buffer it goes to (lok), and the call ends with
+     - a polynomial and no error flag, or
+     - no polynomial, the flag, and a non-empty message, or
+     - one of the modelled undefined behaviours: 2 (GMP division by zero) or 3 (non-positive
+       denominator handed to mpq_set / mpq_div), only if mpq_set_str accepts some token with
+       a non-positive denominator or a zero numerator; 4 (coefficient index outside the
+       allocation), only if the index check is absent. *)
+Theorem C09_whole_file_string_total :
+  forall (gmpf : list Z -> bool) (gmpq : list Z -> option (Z * Z)) (chk : bool) (input : list Z),
+    match parse_string gmpf gmpq chk (budget_of input) input with
+    | SOk _ b => lok b = true
+    | SErr e b => lok b = true /\ match e with
+                                  | EMsg s => s <> []
+                                  | EIndet f => exists c r, f = c :: r /\ c <> 37
+                                  end
+    | SFuel => False
+    | SCrash w b =>
+        lok b = true /\
+        (((w = 2 \/ w = 3) /\ exists t n d, gmpq t = Some (n, d) /\ (d <= 0 \/ n = 0))
+         \/ (w = 4 /\ chk = false))
+    end.
+Proof. exact parse_string_total. Qed.
+Print Assumptions C09_whole_file_string_total.
+
+(* the same for mps_parse_stream / mps_parse_file (mps_skip_comments, then getline) *)
+Theorem C09_whole_file_stream_total :
+  forall (gmpf : list Z -> bool) (gmpq : list Z -> option (Z * Z)) (chk : bool) (input : list Z),
+    match parse_stream gmpf gmpq chk (budget_of input) input with
+    | SOk _ b => lok b = true
+    | SErr e b => lok b = true /\ match e with
+                                  | EMsg s => s <> []
+                                  | EIndet f => exists c r, f = c :: r /\ c <> 37
+                                  end
+    | SFuel => False
+    | SCrash w b =>
+        lok b = true /\
+        (((w = 2 \/ w = 3) /\ exists t n d, gmpq t = Some (n, d) /\ (d <= 0 \/ n = 0))
+         \/ (w = 4 /\ chk = false))
+    end.
+Proof. exact parse_stream_total. Qed.
+Print Assumptions C09_whole_file_stream_total.
+
+(* with the index check of fixes/C09_chebyshev_sparse_index_check.patch and an mpq_set_str
+   that only ever stores positive denominators and non-zero numerators, no undefined
+   behaviour is reachable.  Partial: a zero numerator is harmless except as the divisor
+   of a legacy 2.x rational "n d", but is excluded here for every token. *)
+Theorem C09_whole_file_no_undefined_behaviour_partial :
+  forall (gmpf : list Z -> bool) (gmpq : list Z -> option (Z * Z)) (input : list Z),
+    (forall t n d, gmpq t = Some (n, d) -> 0 < d /\ n <> 0) ->
+    (forall w b, parse_string gmpf gmpq true (budget_of input) input <> SCrash w b) /\
+    (forall w b, parse_stream gmpf gmpq true (budget_of input) input <> SCrash w b).
+Proof. exact whole_file_no_ub. Qed.
+Print Assumptions C09_whole_file_no_undefined_behaviour_partial.
+
+Definition nl : list Z := [10].
+
+(* non-vacuity: a 3.x file, a legacy file and two malformed files through the model with
+   the GMP 6.2.1 transcription *)
+Example C09_whole_file_nonvacuous :
+  (exists b, parse_string gmpf621 gmpq621 false (budget_of (str "Monomial;" ++ nl ++ str "Degree=2;" ++ nl ++ str "Rational; ! c" ++ nl ++ str "Real;" ++ nl ++ str "1/2 -3 4" ++ nl))
+                          (str "Monomial;" ++ nl ++ str "Degree=2;" ++ nl ++ str "Rational; ! c" ++ nl ++ str "Real;" ++ nl ++ str "1/2 -3 4" ++ nl)
+             = SOk {| p_type := 0; p_deg := 2; p_cplx := false; p_kind := KRat; p_dens := 0; p_prec := 0 |} b /\ lok b = true /\ lwork b = 3)
+  /\ (exists b, parse_stream gmpf621 gmpq621 false (budget_of (str "! old" ++ nl ++ str "sci" ++ nl ++ str "0" ++ nl ++ str "3" ++ nl ++ str "2" ++ nl ++ str "0 1 2 3 -1 5"))
+                              (str "! old" ++ nl ++ str "sci" ++ nl ++ str "0" ++ nl ++ str "3" ++ nl ++ str "2" ++ nl ++ str "0 1 2 3 -1 5")
+             = SOk {| p_type := 0; p_deg := 3; p_cplx := true; p_kind := KInt; p_dens := 1; p_prec := 0 |} b /\ lok b = true)
+  /\ (exists b, parse_string gmpf621 gmpq621 false (budget_of (str "Secular;" ++ nl ++ str "Degree=1;" ++ nl ++ str "1.5 2x"))
+                              (str "Secular;" ++ nl ++ str "Degree=1;" ++ nl ++ str "1.5 2x")
+             = SErr (EMsg (str "Parsing error on line 3 near the token: 2x")) b)
+  /\ (exists b, parse_string gmpf621 gmpq621 false (budget_of (str "Dense;" ++ nl ++ str "1 2")) (str "Dense;" ++ nl ++ str "1 2")
+             = SErr (EIndet msg_degree_missing) b).
+Proof.
+  split; [vm_compute; eexists; repeat split|].
+  split; [vm_compute; eexists; repeat split|].
+  split; vm_compute; eexists; reflexivity.
+Qed.
+
+(* the faithful model reaches GMP's division by zero: in the 3.x monomial, secular and
+   Chebyshev readers through mpq_canonicalize, in the legacy reader through mpq_div.
+   The four inputs are replayed on the real code by checks/C09.py (SIGFPE, known finding). *)
+Theorem C09_whole_file_zero_denominator_refuted :
+  (exists b, let i := str "Monomial;" ++ nl ++ str "Degree=1;" ++ nl ++ str "Rational;" ++ nl ++ str "Real;" ++ nl ++ str "1/0 1" ++ nl in
+             parse_string gmpf621 gmpq621 false (budget_of i) i = SCrash 2 b)
+  /\ (exists b, let i := str "Secular;" ++ nl ++ str "Degree=1;" ++ nl ++ str "Rational;" ++ nl ++ str "Real;" ++ nl ++ str "1/0 1" ++ nl in
+                 parse_stream gmpf621 gmpq621 false (budget_of i) i = SCrash 2 b)
+  /\ (exists b, let i := str "Chebyshev;" ++ nl ++ str "Degree=1;" ++ nl ++ str "Rational;" ++ nl ++ str "Real;" ++ nl ++ str "1/0 1" ++ nl in
+                 parse_stream gmpf621 gmpq621 false (budget_of i) i = SCrash 2 b)
+  /\ (exists b, let i := str "drq" ++ nl ++ str "0" ++ nl ++ str "0" ++ nl ++ str "1 0" ++ nl in
+                 parse_string gmpf621 gmpq621 false (budget_of i) i = SCrash 2 b).
+Proof. repeat split; vm_compute; eexists; reflexivity. Qed.
+Print Assumptions C09_whole_file_zero_denominator_refuted.
+
+(* the Chebyshev sparse reader indexes its coefficient arrays with the parsed degree
+   without a range check (code 4); with the check of the patch the same file is an error *)
+Theorem C09_whole_file_chebyshev_sparse_index_refuted :
+  let i := str "Chebyshev;" ++ nl ++ str "Degree=2;" ++ nl ++ str "Sparse;" ++ nl ++ str "Real;" ++ nl ++ str "5 1.0" ++ nl in
+  (exists b, parse_string gmpf621 gmpq621 false (budget_of i) i = SCrash 4 b)
+  /\ (exists b, parse_string gmpf621 gmpq621 true (budget_of i) i
+                 = SErr (EMsg (str "Parsing error on line 5 near the token: 5")) b).
+Proof. split; vm_compute; eexists; reflexivity. Qed.
+Print Assumptions C09_whole_file_chebyshev_sparse_index_refuted.
+
+(* the work is NOT linear in the input: 31 bytes make the reader allocate 2 000 000 001
+   coefficient slots before the first coefficient is read (known finding: timeout) *)
+Theorem C09_whole_file_allocation_linear_refuted :
+  exists input e b,
+    (List.length input <= 40)%nat /\
+    parse_string gmpf621 gmpq621 false (budget_of input) input = SErr e b /\ 2000000000 < lwork b.
+Proof.
+  exists (str "Monomial;" ++ nl ++ str "Degree=2000000000;" ++ nl ++ str "1 2" ++ nl).
+  eexists _, _. split; [vm_compute; repeat constructor|].
+  split; [vm_compute; reflexivity|vm_compute; reflexivity].
+Qed.
+Print Assumptions C09_whole_file_allocation_linear_refuted.
